@@ -255,3 +255,37 @@ OPT_SUBJECTS = {c.__name__: c for c in (OptPlainRenamer, OptCachedRenamer, OptAr
                                         OptArgPlain, OptCachedCounter, OptCachedWalker)}
 
 # }}}
+
+
+# {{{ an application-defined node that brings its own printer (documented extension hook:
+#     Expression.make_stringifier + StringifyMapper.handle_unsupported_expression)
+
+def _biased_printer(base):
+    from pymbolic.mapper.stringifier import PREC_SUM
+
+    class BiasedPrinter(base):
+        def map_u_biased(self, expr, enclosing_prec, *args, **kwargs):
+            return self.parenthesize_if_needed(
+                self.format("%s + %s", self.rec(expr.child, PREC_SUM, *args, **kwargs),
+                            self.rec(expr.bias, PREC_SUM, *args, **kwargs)),
+                enclosing_prec, PREC_SUM)
+    return BiasedPrinter
+
+
+@expr_dataclass()
+class UBiased(Expression):
+    """child + bias as a node of its own; stock printers reach its text through the hook"""
+    child: object
+    bias: object
+
+    def make_stringifier(self, originating_stringifier=None):
+        from pymbolic.mapper.c_code import CCodeMapper
+        from pymbolic.mapper.stringifier import StringifyMapper
+        if isinstance(originating_stringifier, CCodeMapper):
+            return _biased_printer(CCodeMapper)()
+        return _biased_printer(StringifyMapper)()
+
+    def vf_reference(self):
+        return p.Sum((self.child, self.bias))
+
+# }}}
